@@ -39,9 +39,15 @@ def gen_plan(seed, tier):
         plan['nested'] = 'DE'; plan['nested_np'] = rng.choice([4, 5, 6])
         plan['limits'] = [rng.choice([2, 3, 5, 8]), plan['limits'][1]]
     plan['maps'] = ensembles.map_specs(rng, tier, 2)
-    plan['modes'] = ['solve', 'solve_step', 'steps'] if tier != 'quick' else rng.sample(['solve', 'solve_step', 'steps'], 2)
+    plan['modes'] = ['solve', 'solve_step', 'steps', 'while'] if tier != 'quick' else (['solve'] + rng.sample(['solve_step', 'steps', 'while', 'while'], 1))
     plan['wrapper'] = rng.random() < 0.3
     plan['generators'] = rng.random() < 0.4
+    if plan['limits'][0] is None:
+        # run-to-convergence plans are long: a light map and the two modes that matter (run-to-completion vs the
+        # caller's `while not Terminated(): Step()` loop)
+        plan['maps'] = [{'mode': rng.choice(['serial', 'shuffled', 'reversed']), 'salt': 0}]
+        plan['modes'] = ['solve', 'while']
+        plan['wrapper'] = False
     return plan
 
 
@@ -207,7 +213,12 @@ def check_variant(plan, run, s, peers, e0, mspec, mode, violate, stats):
 def _run(plan, run, violate, stats):
     variants = []
     for ms in plan['maps']:
-        for m in plan['modes']: variants.append((ms, m))
+        for m in plan['modes']:
+            # a process-mode map pickles every member out and back per map call: the step-wise modes (one map call per
+            # ensemble step) are only run under it when the run is short
+            if ms.get('mode') == 'process' and m != 'solve' and ((plan.get('limits') or [None])[0] is None or plan['limits'][0] > 8): continue
+            variants.append((ms, m))
+    member_work = {}
     for vi, (mspec, mode) in enumerate(variants):
         _random.seed(plan['lib_seed']); numpy.random.seed(plan['lib_seed'] % (2 ** 32))
         s, peers = ensembles.build_ensemble(plan, run, mspec)
@@ -237,6 +248,21 @@ def _run(plan, run, violate, stats):
         run.budget = run.ncross + 500000
         stats['variants'] += 1
         check_variant(plan, run, s, peers, e0, mspec, mode, violate, stats)
+        try:
+            member_work[(repr(sorted(mspec.items())), mode)] = (tuple(int(m_.generations) for m_ in s._allSolvers),
+                                                                 tuple(int(v_) for v_ in s._all_evals))
+        except Exception:
+            pass
+    # the members are subject to the limits the ensemble was given, whichever way the ensemble is driven: the work each
+    # member did (iterations, evaluations, stop) must not depend on the drive mode
+    for ms_ in (plan['maps'] if plan['nested'] != 'DE' else []):      # (DE members draw random numbers: not comparable across modes)
+        key = repr(sorted(ms_.items()))
+        got = [(m_, v_) for (k_, m_), v_ in member_work.items() if k_ == key]
+        for m_, v_ in got[1:]:
+            if v_ != got[0][1]:
+                violate('member_ignores_limits', 'under map %r the members did different work in mode %s than in mode %s: (iterations, '
+                        'evaluations, limits) %r vs %r' % (ms_.get('mode'), m_, got[0][0], v_, got[0][1]), map=ms_['mode'], mode=m_)
+                break
     if plan.get('wrapper'): wrapper(plan, run, violate, stats)
     if plan.get('generators'): generators(plan, run, violate, stats)
 
